@@ -632,3 +632,49 @@ func vfH_C12_fec_across_boundaries() {
 		vfAssert("c12/fec/every-group-recovered", recovered >= G)
 	}
 }
+
+// C16, the quantitative clause at its extreme: a receiver configured differently from a sender
+// whose group is as large as allowed (d+p = 255, and smaller ones) adopts the sender's ratio
+// within an uninterrupted run of 258+2(d+p) packets from any phase of the cycle, and decoding
+// is no longer suspended. The packets are header-only (sequence id, type, size): the detector
+// looks at nothing else. The sample ring must hold a whole cycle plus both edges (257 of its 258
+// entries when d+p = 255), so this is where an off-by-a-few in its size shows.
+func vfH_C16_converges_within_bound() {
+	vfStepBudget(40000000)
+	snd := []vfRatio{{254, 1}, {128, 127}, {1, 254}, {250, 5}, {10, 3}, {3, 1}}[vfPick("sender", 0, 5)]
+	rcv := []vfRatio{{10, 3}, {2, 1}}[vfPick("receiver", 0, 1)]
+	if snd == rcv {
+		rcv = vfRatio{4, 4}
+	}
+	S := snd.d + snd.p
+	dec := newFECDecoder(rcv.d, rcv.p)
+	starts := []uint32{0, 0x80000000 - 300}
+	phases := []int{0, snd.d - 1, snd.d % S, S - 1}
+	if vfTier() > 0 {
+		starts = append(starts, 1000003, 0xfffffe00)
+		phases = append(phases, 1, S/2, S/3)
+	}
+	start := starts[vfPick("start", 0, len(starts)-1)]
+	start -= start % uint32(S)
+	ph := phases[vfPick("phase", 0, len(phases)-1)]
+	n := 258 + 2*S
+	adoptedAt := -1
+	for k := 0; k < n; k++ {
+		id := start + uint32(ph+k)
+		pkt := make([]byte, fecHeaderSizePlus2+1)
+		binary.LittleEndian.PutUint32(pkt, id)
+		if int(id%uint32(S)) < snd.d {
+			binary.LittleEndian.PutUint16(pkt[4:], typeData)
+		} else {
+			binary.LittleEndian.PutUint16(pkt[4:], typeParity)
+		}
+		binary.LittleEndian.PutUint16(pkt[6:], 3)
+		dec.decode(pkt)
+		if adoptedAt < 0 && dec.dataShards == snd.d && dec.parityShards == snd.p && !dec.shouldTune {
+			adoptedAt = k + 1
+		}
+	}
+	vfReach("fed")
+	vfAssert("c16/adopts-the-sender's-ratio-within-258+2(d+p)-packets", adoptedAt > 0)
+	vfAssert("c16/stays-with-the-sender's-ratio", dec.dataShards == snd.d && dec.parityShards == snd.p && !dec.shouldTune)
+}
